@@ -225,7 +225,10 @@ func profile() *profileView {
 	for i := range p.msgs {
 		p.byNum[p.msgs[i].Num] = &p.msgs[i]
 	}
-	for _, c := range []uint16{22, 29, 104, 113, 140, 233, 1000, 0xFF00, 0xFFFE, 65280, 400} {
+	// unknown message numbers: gaps inside the profile tables, numbers far outside, and the numbers at the very
+	// edge of the lookup table (its last row, the first number past it, and the one after)
+	edge := uint16(len(fit.VerifFields()))
+	for _, c := range []uint16{22, 29, 104, 113, 140, 233, 1000, 0xFF00, 0xFFFE, 65280, 400, edge - 1, edge, edge + 1} {
 		if !known[fit.MesgNum(c)] {
 			p.unknown = append(p.unknown, c)
 		}
